@@ -233,7 +233,7 @@ func TestC05(t *testing.T) {
 	if stats.Thorough() {
 		maxDepth = 5
 	}
-	check(t, 0, budget(6000, 160000), func(rt *rapid.T) {
+	check(t, 0, budget(16000, 200000), func(rt *rapid.T) {
 		typName := rapid.SampledFrom([]string{"int", "int", "float", "float", "string", "string", "bool", "bool", "bool", "time"}).Draw(rt, "type")
 		typ := c05Type(typName)
 		seed := rapid.Uint64Range(0, 1<<20).Draw(rt, "state_seed")
